@@ -31,7 +31,7 @@ class Template:
 
 
 def gen_condition(t, r, kinds=None):
-    kind = r.choice(kinds or ["header", "header", "header-list", "nothdr", "exists", "notexists", "size", "envelope", "address", "body", "currentdate", "currentdate-value", "true", "false"])
+    kind = r.choice(kinds or ["header", "header", "header-list", "nothdr", "exists", "notexists", "size", "size-int", "envelope", "address", "body", "currentdate", "currentdate-value", "true", "false"])
     mt = r.choice([":is", ":contains", ":matches"])
     if kind == "header":
         return (t.hole(), mt, t.hole())
@@ -44,7 +44,10 @@ def gen_condition(t, r, kinds=None):
     if kind == "notexists":
         return ("notexists",) + tuple(t.holes(r))
     if kind == "size":
-        return ("size", r.choice([":over", ":under"]), r.choice(["100", "10K", "2M", "0"]))
+        return ("size", r.choice([":over", ":under"]), r.choice(["100", "10K", "2M", "0", "1G", "3g"]))
+    if kind == "size-int":
+        # the limit given as a Python int, small and very large (whatever the factory makes of it must be a Sieve number)
+        return ("size", r.choice([":over", ":under"]), r.choice([0, 1, 1023, 1024, 2048, 10 ** 6, 2 ** 31, 2 ** 32, 2 ** 40, 3 * 2 ** 40, 2 ** 50, 2 ** 63, 2 ** 64]))
     if kind == "envelope":
         return ("envelope", r.choice([mt, ":not" + mt[1:]]), t.holes(r), t.holes(r))
     if kind == "address":
@@ -91,9 +94,9 @@ def gen_action(t, r):
     if r.random() < 0.6:
         tags += [":subject", t.hole()]
     if r.random() < 0.5:
-        tags += [":days", r.choice([0, 1, 7, 365, r.randint(1, 30)])]      # 0 is falsy in Python: boundary
+        tags += [":days", r.choice([0, 1, 7, 365, r.randint(1, 30), 1024, 2 ** 40])]      # 0 is falsy in Python: boundary
     elif r.random() < 0.3:
-        tags += [":seconds", r.choice([0, 1, 86400, r.randint(1, 3000)])]
+        tags += [":seconds", r.choice([0, 1, 86400, r.randint(1, 3000), 2048, 2 ** 31, 2 ** 40, 3 * 2 ** 40])]
     if r.random() < 0.4:
         tags += [":from", t.hole()]
     if r.random() < 0.4:
